@@ -470,6 +470,9 @@ class TableGroupCache(object):
         self._groups = {}
         self.extra_b_entries = {}
         self.extra_d_entries = {}
+        # Bumped whenever the extra entries change, so that anything derived from
+        # the tables (e.g. compiled templates) can tell it is out of date.
+        self.extra_entries_version = 0
 
     def get(self, table_group_key):
         if table_group_key not in self._groups:
@@ -496,6 +499,7 @@ class TableGroupCache(object):
     def add_extra_entries(self, b_entries, d_entries):
         self.extra_b_entries.update(b_entries)
         self.extra_d_entries.update(d_entries)
+        self.extra_entries_version += 1
 
 
 class TableGroupCacheManager(object):
@@ -504,6 +508,10 @@ class TableGroupCacheManager(object):
     @classmethod
     def has_extra_entries(cls):
         return cls._TABLE_GROUP_CACHE.has_extra_entries()
+
+    @classmethod
+    def extra_entries_version(cls):
+        return cls._TABLE_GROUP_CACHE.extra_entries_version
 
     @classmethod
     def invalidate(cls):
